@@ -210,6 +210,7 @@ def run_scenario(ctx, binary, prop, uni, cfg, mucfg="MU_std.cfg", nontrivial=Non
         e["f"] = full[vflib.canon(e["fk"])]
         dbg = e["r"].pop("dbg")
         e["r"] = norm_res(e["r"])
+        e["r"]["rbf"] = bool(e["a"][0] in ("submit", "test") and dbg["nc"] > 0)      # a replacement attempt (bookkeeping for the evidence only)
         stats["per"][(e["a"][0], e["r"]["why"])] += 1
         if e["a"][0] == "submit" and dbg["nc"] > 0:
             stats["m4"].add(dbg["m4"]); stats["m3"].add(dbg["m3"]); stats["nclusters"].add(dbg["nc"])
@@ -219,7 +220,8 @@ def run_scenario(ctx, binary, prop, uni, cfg, mucfg="MU_std.cfg", nontrivial=Non
     paths = []
     for p in path_cover(g):
         q = dict(init=dict(obs=norm_obs(p["init"]["obs"])), init_m=p["init"]["model"],
-                 steps=[dict(a=s["a"], r=s["r"], exp=dict(obs=norm_obs(s["exp"]["obs"])), m=s["exp"]["model"]) for s in p["steps"]])
+                 steps=[dict(a=s["a"], r={k: v for k, v in s["r"].items() if k != "rbf"}, exp=dict(obs=norm_obs(s["exp"]["obs"])),
+                             m=s["exp"]["model"], rbf=s["r"]["rbf"]) for s in p["steps"]])
         paths.append(q)
         if nontrivial is None or nontrivial(q):
             ctx.nontrivial.add(vflib.digest([s["a"] for s in q["steps"]]))
